@@ -129,7 +129,9 @@ TYPES = ['T', '[T]', 'T!', '[T!]!', '[[T]]', '[', '[T', 'T!!', '!', '[T]]']
 COORDS = ['T', 'T.f', 'T.f(a:)', '@d', '@d(a:)', 'T.', 'T.f(', 'T.f(a', 'T.f(a:', '@', '@d(', 'T f',
           'T.f.g', '@d.f', '(', 'T(a:)', '']
 SUBST = ['{', '}', '(', ')', '[', ']', ':', '=', '@', '$', '!', '|', '&', '...', 'on', 'true', 'null',
-         'extend', 'fragment', 'query', '"s"', '"""b"""', '1', '1.5', 'x', '.']
+         'extend', 'fragment', 'query', '"s"', '"""b"""', '1', '1.5', 'x', '.',
+         # names that are attributes of Enum classes / of str but no GraphQL keywords
+         'mro', '__doc__', '__members__', 'name', 'value', '__class__']
 
 
 def token_spans(text):
